@@ -108,7 +108,7 @@ def results():
                 if l.startswith('  harness'): first = l.strip()[:170]; break
             if first: break
         rows.append(f"| {m['id']} | {m['breaks']} | {m.get('what','')[:160]} | {m.get('needs','')[:200]} | {'; '.join(det)}{' -- ' + m['note'] if m.get('note') else ''} | {first} |")
-    open('/verif/seeded/RESULTS.md', 'w').write("# Seeded changes (written by independent sub-agents from the property text only)\n\nEach was confirmed in a scratch worktree (builds, pinned suite 140/140, demonstration fails with the change and passes without) before being kept; the checks were then run with the patch applied to /repo (`git -C /repo apply`), which was restored straight afterwards.\n\n| id | property | change | needs | checks | first violation line |\n|---|---|---|---|---|---|\n" + "\n".join(rows) + "\n")
+    open('/verif/seeded/RESULTS.md', 'w').write("# Seeded changes (written by independent sub-agents from the property text only)\n\nEach was confirmed in a scratch worktree (builds, pinned suite 140/140, demonstration fails with the change and passes without) before being kept; the checks were then run with the patch applied to /repo (`git -C /repo apply`, restored straight afterwards) or, where noted in meta.json (`on`), to a scratch copy of /repo passed with `--repo` so that runs could proceed in parallel. A `--` note says when a change was missed by the checks as they stood and which strengthening detects it.\n\n| id | property | change | needs | checks | first violation line |\n|---|---|---|---|---|---|\n" + "\n".join(rows) + "\n")
     print(open('/verif/seeded/RESULTS.md').read())
 cmd = sys.argv[1]
 if cmd == 'ingest':
